@@ -91,3 +91,101 @@ Proof.
   replace (((o + mark * 256 + b2n must * 1099511627776) / 1099511627776) mod 2) with (b2n must) by lia.
   destruct must; reflexivity.
 Qed.
+
+(* ---------------------------------------------------------------------------------------------- *)
+(* the kernel decodes what the control plane encodes                                                *)
+(* ---------------------------------------------------------------------------------------------- *)
+
+Lemma wf_mset_facts n m : wf_mset n m = true ->
+  m_type m <= 10 /\ m_out m < 256 /\ m_mark m < 4294967296 /\ m_ps m < 65536 /\ m_pe m < 65536 /\ m_mask m < 256 /\
+  List.length (m_pname m) = 16%nat /\ (forall b, In b (m_pname m) -> b < 256) /\ m_dscp m < 256 /\
+  (is_lpm_type (m_type m) = true -> m_lpm m < n).
+Proof.
+  unfold wf_mset. rewrite !andb_true_iff. intros [[[[[[[[[H1 H2] H3] H4] H5] H6] H7] H8] H9] H10].
+  change MatchType_Fallback with 10 in H1. change (2 ^ 32) with 4294967296 in H3.
+  apply Nat.eqb_eq in H7. rewrite forallb_forall in H8.
+  repeat split; try lia; auto.
+  - intros b Hb. specialize (H8 b Hb). lia.
+  - intros Hl. rewrite Hl in H10. lia.
+Qed.
+
+Definition value16 (alloc : N) (m : mset) : list N :=
+  if is_lpm_type (m_type m) then le32_bytes (ring_slot MaxMatchSetLen alloc (m_lpm m)) ++ zeros 12 else value_bytes m.
+
+Lemma length_value_bytes m : List.length (value_bytes m) = 16%nat.
+Proof.
+  unfold value_bytes.
+  repeat match goal with |- context [if ?b then _ else _] => destruct b end; reflexivity.
+Qed.
+
+Lemma length_value16 alloc m : List.length (value16 alloc m) = 16%nat.
+Proof. unfold value16. destruct (is_lpm_type (m_type m)); [reflexivity | apply length_value_bytes]. Qed.
+
+Lemma kentry_split alloc m :
+  kentry alloc m = value16 alloc m ++ [b2n (m_not m); m_type m; m_out m; b2n (m_must m)] ++ le32_bytes (m_mark m).
+Proof. reflexivity. Qed.
+
+Lemma b2n_lt b : b2n b < 256.
+Proof. destruct b; cbn; lia. Qed.
+
+Lemma byte_at_app2' v l n k : List.length v = n -> byte_at (v ++ l) (n + k) = byte_at l k.
+Proof. intros <-. apply byte_at_app2. Qed.
+
+Lemma le32_app2' v l n o : List.length v = n -> le32 (v ++ l) (n + o) = le32 l o.
+Proof. intros <-. apply le32_app2. Qed.
+
+Lemma header_decodes alloc m : m_mark m < 4294967296 ->
+  let e := kentry alloc m in
+  ms_not e = b2n (m_not m) /\ ms_type e = m_type m /\ ms_outbound e = m_out m /\ ms_must e = b2n (m_must m) /\ ms_mark e = m_mark m.
+Proof.
+  intros Hm e. subst e. rewrite kentry_split.
+  pose proof (length_value16 alloc m) as L.
+  unfold ms_not, ms_type, ms_outbound, ms_must, ms_mark.
+  rewrite (byte_at_app2' _ _ 16 0 L), (byte_at_app2' _ _ 16 1 L), (byte_at_app2' _ _ 16 2 L), (byte_at_app2' _ _ 16 3 L),
+          (le32_app2' _ _ 16 4 L).
+  repeat split; try reflexivity.
+  rewrite (le32_app2' [b2n (m_not m); m_type m; m_out m; b2n (m_must m)] _ 4 0 eq_refl).
+  rewrite <- (app_nil_r (le32_bytes (m_mark m))). now apply le32_bytes_le32.
+Qed.
+
+Lemma le32_value alloc m rest o : (o + 3 < 16)%nat -> le32 (value16 alloc m ++ rest) o = le32 (value16 alloc m) o.
+Proof.
+  intros Ho. pose proof (length_value16 alloc m) as L. unfold le32. rewrite !byte_at_app1 by lia. reflexivity.
+Qed.
+
+Lemma le32_nth16 l o : (o + 3 < 16)%nat -> List.length l = 16%nat -> le32 (nth16 l) o = le32 l o.
+Proof.
+  intros Ho L. unfold le32.
+  assert (E : forall k, (k < 16)%nat -> byte_at (nth16 l) k = byte_at l k).
+  { intros k Hk. do 16 (destruct k as [|k]; [reflexivity|]). lia. }
+  rewrite !E by lia. reflexivity.
+Qed.
+
+Theorem encode_decode alloc n m : wf_mset n m = true -> decodes alloc (kentry alloc m) m.
+Proof.
+  intros Hwf. destruct (wf_mset_facts _ _ Hwf) as (Ht & Ho & Hmk & Hps & Hpe & Hmask & Hpn & Hpb & Hd & Hl).
+  destruct (header_decodes alloc m Hmk) as (H1 & H2 & H3 & H4 & H5).
+  unfold decodes.
+  split; [exact H2|]. split; [exact H1|]. split; [exact H3|]. split; [exact H4|]. split; [exact H5|].
+  split; [|split; [|split; [|split; [|split]]]].
+  - (* LPM index *)
+    intros Hlpm. unfold ms_index. rewrite kentry_split, le32_value by lia. unfold value16. rewrite Hlpm.
+    apply le32_bytes_le32. unfold ring_slot. change MaxMatchSetLen with 1024. lia.
+  - (* port range *)
+    intros Hp. split.
+    + unfold ms_port_start. rewrite kentry_split. unfold value16, value_bytes.
+      destruct Hp as [-> | ->]; cbn [is_lpm_type]; rewrite <- app_assoc; now apply le16_bytes_le16.
+    + unfold ms_port_end, le16. rewrite kentry_split. unfold value16, value_bytes.
+      destruct Hp as [-> | ->]; cbn [is_lpm_type]; unfold byte_at, le16_bytes; cbn [nth app Nat.add]; lia.
+  - intros Hp. unfold ms_l4proto_type, le32. rewrite kentry_split. unfold value16, value_bytes. rewrite Hp.
+    unfold byte_at. cbn. lia.
+  - intros Hp. unfold ms_ip_version, le32. rewrite kentry_split. unfold value16, value_bytes. rewrite Hp.
+    unfold byte_at. cbn. lia.
+  - intros Hp. unfold le64. rewrite kentry_split, !le32_value by lia. unfold value16, value_bytes. rewrite Hp.
+    change (is_lpm_type MatchType_ProcessName) with false. cbv iota.
+    change ((MatchType_ProcessName =? MatchType_Port) || (MatchType_ProcessName =? MatchType_SourcePort)) with false.
+    change ((MatchType_ProcessName =? MatchType_L4Proto) || (MatchType_ProcessName =? MatchType_IpVersion)) with false.
+    change (MatchType_ProcessName =? MatchType_ProcessName) with true. cbv iota.
+    rewrite !le32_nth16 by (lia || assumption). split; reflexivity.
+  - intros Hp. unfold ms_dscp. rewrite kentry_split. unfold value16, value_bytes. rewrite Hp. reflexivity.
+Qed.
